@@ -50,7 +50,13 @@ impl Node {
             index,
             hash,
             length,
-            parent: flat_tree::parent(index),
+            // A node at depth 62 or more has no parent index that fits a u64 (and
+            // flat_tree::parent is not defined there); it can only come off the wire.
+            parent: if flat_tree::depth(index) < 62 {
+                flat_tree::parent(index)
+            } else {
+                u64::MAX
+            },
             data: Some(Vec::with_capacity(0)),
             blank,
         }
